@@ -682,7 +682,8 @@ def oracle_single(case):
             return [[x[2] for x in fl]]
         if not fl or not either:
             return [[x[2] for x in l]]
-        return [[x[2] for x in fl + it], [x[2] for x in it + fl]]
+        fi = [x for x in l if x[3] == "f"]           # float part in insertion order (not judged here)
+        return [[x[2] for x in o] for o in (fl + it, it + fl, fi + it, it + fi)]
 
     import itertools
     slots = [(post, k) for k in range(n + 1) for post in (False, True)]
@@ -747,6 +748,7 @@ def oracle_get_controls_mixed(case):
             if k == step:
                 land.append((kind, float(key), idx, a))
         fl = [x[3] for x in sorted([x for x in land if x[0] == "f"], key=lambda x: (x[1], x[2]))]
+        fi = [x[3] for x in land if x[0] == "f"]
         it = [x[3] for x in land if x[0] == "i"]
         if not land:
             if got[side] is not None:
@@ -756,7 +758,7 @@ def oracle_get_controls_mixed(case):
             return False, "%s control is None although %d controls land on the step" % (
                 "post" if post else "pre", len(land))
         prod = lambda ops: reduce(lambda acc, a: a @ acc, ops, np.eye(d * d, dtype=complex))
-        if not any(close(got[side], prod(o), 1e-10) for o in (fl + it, it + fl)):
+        if not any(close(got[side], prod(o), 1e-10) for o in (fl + it, it + fl, fi + it, it + fi)):
             return False, ("%s control is not the product of all %d controls landing on the step in either "
                            "order of the int- and float-keyed part: a control does not act"
                            % ("post" if post else "pre", len(land)))
